@@ -33,11 +33,11 @@ def namespaces():
 def BOUNDS(tier):
     return ("operation histories of length <= %d over %r (+ a final getfile-read or close) on OverflowableBuffer with symbolic sizes and a symbolic "
             "overflow threshold; ReadOnlyFileBasedBuffer over a file of symbolic length, start position and prepared size with <= 3 peek/consume "
-            "steps and block iteration." % (4 if tier == "quick" else 6, OPS))
+            "steps and block iteration." % (4 if tier == "quick" else 5, OPS))
 
 
 def jobs(tier):
-    n = 4 if tier == "quick" else 6
+    n = 4 if tier == "quick" else 5
     js = []
     for a in OPS:
         for b in OPS:
